@@ -256,7 +256,7 @@ def gen_cases(run):
         for task in ('reg1', 'reg2', 'bin', 'multi'):
             for mode in (('zero_one', 'prevalence') if task in ('bin', 'multi') else ('zero_one',)):
                 for depth in (0, 1, 2, 3):
-                    for rep in range(2 if task in ('bin', 'multi') else 3):
+                    for rep in range(5 if task in ('bin', 'multi') else 8):
                         plan.append((task, mode, depth))
     kernels = ['l2', 'l1', 'l2_high_dim', 'lpq', 'l2e']
     for k, (task, mode, depth) in enumerate(plan):
@@ -310,7 +310,10 @@ def check(run):
                        'OUTSIDE (observations only): float64/float16 feature tensors (not converted by xRFM.fit), float16 targets, '
                        'bool labels, NumPy uint16/32/64 labels (torch storage-only dtypes: max() raises NotImplementedError)',
                        'each fit is seeded (random/numpy/torch) immediately before construction; CPU; torch pinned to 1 thread']
+    import time
+    t0 = time.time()
     run.lean()
+    run.extra['lean_s'] = round(time.time() - t0, 1)   # includes waiting for the shared build lock
     cases = gen_cases(run)
     run.extra['exhaustive'] = True
     run.extra['exhaustive_part'] = 'all documented target representations x all documented feature containers per kind of data'
